@@ -16,3 +16,6 @@ CHECKS["C12"] = check_color.run
 
 import check_hist
 CHECKS["C14"] = check_hist.run
+
+import check_conc
+CHECKS["C15"] = check_conc.run
